@@ -899,6 +899,98 @@ pub fn run_directed_future_stamped(path: &str) -> (String, String, String) {
     ("note directed=future-stamped-calls-on-unexpired-keys".to_string(), "note".to_string(), verdict)
 }
 
+/// Directed (C13, "after any mix of ... expiries"): every writer that can meet an expired, not yet
+/// swept generation of its key -- increment, insert, compare-and-swap, TTL update, JSON patch,
+/// delete -- on keys that were expired on arrival (explicit timestamp 1 ns, TTL 1 s; no sweeper, and
+/// `get` does not remove them).  After every call len() must equal the number of live keys and
+/// memory_usage() the sum of their record sizes; after deleting everything both are zero.
+pub fn run_directed_expired_overwrites(path: &str) -> (String, String, String) {
+    let run = |persistent: bool| -> Result<(), String> {
+        let cfg = Cfg { extreme: false, persistent, cache: false, ttl: true, version: 3, limit: None, blocks: 4096, focus: 0, autocheck: false };
+        let _ = std::fs::remove_file(path);
+        let store = open(&cfg, path).map_err(|e| format!("cannot-create-store {e}"))?;
+        let overhead = FeoxStore::verif_record_overhead();
+        let mut live: std::collections::BTreeMap<Vec<u8>, usize> = Default::default();
+        let check = |st: &FeoxStore, live: &std::collections::BTreeMap<Vec<u8>, usize>, after: &str| -> Result<(), String> {
+            let want_mem: usize = live.iter().map(|(k, v)| overhead + k.len() + v).sum();
+            if st.len() != live.len() {
+                return Err(format!("len-differs-from-the-live-keys after={after} len={} live={} persistent={persistent}", st.len(), live.len()));
+            }
+            if st.memory_usage() != want_mem {
+                return Err(format!("memory-usage-differs-from-the-live-records after={after} reported={} live-sum={want_mem} persistent={persistent}", st.memory_usage()));
+            }
+            Ok(())
+        };
+        let expired = |st: &FeoxStore, k: &[u8], v: &[u8]| st.insert_with_ttl_and_timestamp(k, v, 1, Some(1)).map(|_| ()).map_err(|e| format!("setup {e}"));
+        // a bystander that never expires
+        store.insert(b"xo-bystander", b"here").map_err(|e| format!("setup {e}"))?;
+        live.insert(b"xo-bystander".to_vec(), 4);
+        check(&store, &live, "setup")?;
+        // increment over an expired counter and over an expired non-counter: both start from zero
+        for (k, v) in [(&b"xo-incr-counter"[..], &7i64.to_le_bytes()[..]), (b"xo-incr-text", b"not-a-counter")] {
+            expired(&store, k, v)?;
+            match store.atomic_increment(k, 5) {
+                Ok(5) => {
+                    live.insert(k.to_vec(), 8);
+                }
+                Ok(x) => return Err(format!("increment-over-an-expired-key-did-not-start-from-zero got={x} persistent={persistent}")),
+                Err(e) => return Err(format!("increment-over-an-expired-key-refused {e} persistent={persistent}")),
+            }
+            check(&store, &live, "increment-over-an-expired-key")?;
+        }
+        // insert over an expired key
+        expired(&store, b"xo-insert", b"old-old-old")?;
+        store.insert(b"xo-insert", b"new").map_err(|e| format!("insert-over-expired {e}"))?;
+        live.insert(b"xo-insert".to_vec(), 3);
+        check(&store, &live, "insert-over-an-expired-key")?;
+        // calls that must treat the expired key as absent and leave nothing behind
+        expired(&store, b"xo-cas", b"old")?;
+        let _ = store.compare_and_swap(b"xo-cas", b"old", b"newer");
+        expired(&store, b"xo-ttl", b"old")?;
+        let _ = store.update_ttl(b"xo-ttl", 3600);
+        let _ = store.persist(b"xo-ttl");
+        expired(&store, b"xo-json", br#"{"a":1}"#)?;
+        let _ = store.json_patch(b"xo-json", br#"[{"op":"replace","path":"/a","value":2}]"#);
+        expired(&store, b"xo-del", b"old")?;
+        let _ = store.delete(b"xo-del");
+        for k in [&b"xo-cas"[..], b"xo-ttl", b"xo-json", b"xo-del"] {
+            if store.get(k).is_ok() {
+                return Err(format!("expired-key-visible key={} persistent={persistent}", String::from_utf8_lossy(k)));
+            }
+        }
+        // the expired generations that nobody replaced are still accounted until they are swept or
+        // deleted: remove them, then everything else
+        for k in [&b"xo-cas"[..], b"xo-ttl", b"xo-json", b"xo-del"] {
+            let _ = store.delete(k);
+        }
+        let _ = store.range_query(b"", &[0xff; 8], 1000);
+        if persistent {
+            store.flush().map_err(|e| format!("flush {e}"))?;
+        }
+        let keys: Vec<Vec<u8>> = live.keys().cloned().collect();
+        for k in keys {
+            store.delete(&k).map_err(|e| format!("delete {e}"))?;
+            live.remove(&k);
+        }
+        // whatever expired generation is still indexed must not be counted as a live key for ever:
+        // an explicit sweep of the remaining expired keys by deleting what a full index walk finds
+        for r in store.verif_snapshot() {
+            let _ = store.delete(&r.key);
+        }
+        if store.len() != 0 || store.memory_usage() != 0 {
+            return Err(format!("accounting-does-not-return-to-zero-after-deleting-everything len={} memory={} persistent={persistent}", store.len(), store.memory_usage()));
+        }
+        Ok(())
+    };
+    let verdict = match std::panic::catch_unwind(std::panic::AssertUnwindSafe(|| run(false).and_then(|_| run(true)))) {
+        Ok(Ok(())) => "ok".to_string(),
+        Ok(Err(e)) => format!("FAIL {e}").replace(": ", "="),
+        Err(_) => "FAIL an-api-call-panicked".to_string(),
+    };
+    let _ = std::fs::remove_file(path);
+    ("note directed=writers-over-expired-unswept-keys".to_string(), "note".to_string(), verdict)
+}
+
 pub fn configs(extreme: bool) -> Vec<Cfg> {
     let mut v = Vec::new();
     for ttl in [false, true] {
@@ -955,6 +1047,7 @@ pub fn run(opts: &Opts) -> i32 {
     let work = std::sync::Arc::new(std::sync::Mutex::new(work));
     let directed = opts.u64("extreme", 0) == 1;
     let lastsec = opts.u64("lastsec", 0) == 1;
+    let expdir = opts.u64("expdir", 0) == 1;
     let mut handles = Vec::new();
     for sh in 0..shards {
         let dir = dir.clone();
@@ -969,6 +1062,10 @@ pub fn run(opts: &Opts) -> i32 {
             }
             if sh == 2 && lastsec {
                 let (case, res, verdict) = run_directed_last_second_renewal(&format!("{scratch}/seq_last_second.feox"));
+                out.emit3(&case, &res, &verdict);
+            }
+            if sh == 4 && (lastsec || expdir) {
+                let (case, res, verdict) = run_directed_expired_overwrites(&format!("{scratch}/seq_expired_overwrites.feox"));
                 out.emit3(&case, &res, &verdict);
             }
             if sh == 3 && lastsec {
